@@ -132,8 +132,11 @@ def run(prop, tier, seed, gen_lines, keep=None, rule="", assumptions=(), search_
         pool = list(lines)
         if search_lines:
             more, m2 = search_lines(rng, tier)
-            pool += more
-            meta.update(m2)
+            # ids of the search pool must not collide with those of the correspondence cases
+            for l in more:
+                t = l.split(" ", 2)
+                pool.append(t[0] + " S" + t[1] + " " + t[2])
+            meta.update({"S" + k: v for k, v in m2.items()})
         found = None
         for k in range(0, len(pool), 4000):
             chunk = pool[k:k + 4000]
